@@ -28,6 +28,10 @@ def run(tier):
             for fl in range(16):
                 args.append([s * 7919 + sl * 16 + fl, L, nrand, maxops, sl, fl])
     fw.run_harness_parallel(res, exe, args, timeout=3600, key_prefix="C12")
+    exe_p = build.build_harness("structs_lqs", "plain", ["structs_lqs.c"])
+    margs = [[s * 104729 + sl, 3, 100 if tier == "quick" else 1000, 300, sl] for sl in range(10)]
+    fw.run_harness_parallel(res, exe_p, margs, timeout=3600, key_prefix="C12", wrapper=fw.MEMCHECK)
+    res.count("memcheck_processes", len(margs))
     res.evaluations = res.counters.get("exhaustive_programs", 0) + res.counters.get("random_programs", 0)
     fw.finish(res, RULE, ASSUME, extra_cov={"exhaustive_subspace": "all programs of length <= %d over the 16-letter alphabet, 10 container flavours" % L})
 
